@@ -5,7 +5,7 @@
    the header writers and validate_extra_data.  Every call returns the (possibly partially mutated) state
    together with its result, because Rust's `?` leaves the mutations made so far in place.
    Compressors are an oracle [enc]; every panic site is a [Panic] outcome.
-   The model follows the tree AFTER the fix: commits D1 D7 D8 D9 D11 D15 D17 D18 D19 (see known_findings.txt). *)
+   The model follows the tree AFTER the fix: commits D1 D7 D8 D9 D11 D15 D17 D18 D19 D21 (see known_findings.txt). *)
 From Coq Require Import ZArith.
 From ZipV Require Import Base.Bytes Base.Outcome Gen.GenLib Gen.SpecGen Gen.CompressionGen Gen.TypesGen
      Gen.ZipCryptoGen Gen.WriteGen Model.Cp437 Model.Readers Model.Reader Spec.Utf8.
@@ -222,6 +222,7 @@ Section Writer.
   Definition with_plain {A} (s : wstate) (k : dev -> dev * res A) : wstate * res A :=
     match ws_inner s with
     | WStorer d => let '(d', r) := k d in (set_inner s (WStorer d'), r)
+    | WEnc d b kk => let '(d', r) := k d in (set_inner s (WEnc d' b kk), r)     (* fix D21: the sink under the wrapper *)
     | _ => (s, Panic PGetPlain)
     end.
 
